@@ -77,14 +77,19 @@ bool g_fn_req_detached;
 int g_expect_status;
 
 /* abstract heap + call records */
-struct ts_q {
-    size_t size;
-    size_t top_i; /* arena index of the task at the top (meaningful when size > 0) */
-    size_t ntop;  /* number of top() calls */
-} g_q;            /* one object, so that callers that change all of it name one assigns target */
-#define g_q_size g_q.size
-#define g_q_top_i g_q.top_i
-#define g_q_ntop g_q.ntop
+struct ts_abs {
+    size_t q_size, q_top_i, q_ntop;
+    size_t asap_len, tl_len, run_len, tl_front_i, run_front_i;
+    uint64_t last_moved_ts; /* time of the task that entered the batch last */
+    bool swapped;           /* the run-now FIFO was handed to the batch */
+    bool moved_any;
+    size_t moved_timed;     /* number of timed tasks moved to the batch */
+} g_ab;                     /* one object: one assigns target */
+/* (members of g_ab, the one object that holds the abstract container state: callers that change all of it name one
+ * assigns target, which keeps DFCC's write-set inclusion loops short) */
+#define g_q_size g_ab.q_size   /* number of elements */
+#define g_q_top_i g_ab.q_top_i /* arena index of the task at the top (meaningful when g_q_size > 0) */
+#define g_q_ntop g_ab.q_ntop   /* number of top() calls */
 struct aws_task *g_q_slot[VERIF_TS_K]; /* g_q_slot[i] == &g_tk[i], never written: top() hands out &g_q_slot[g_q_top_i] */
 #define g_q_top (&g_tk[g_q_top_i])
 bool g_q_push_fails;
@@ -147,8 +152,8 @@ __CPROVER_requires(TS_IS_TASK(task))
 __CPROVER_requires(!TS_SCHEDULED(task))
 /* scheduler-level callers: the task is out of every container when its function runs */
 __CPROVER_requires(g_fn_req_detached ==> TS_UNLINKED(task))
-__CPROVER_assigns(g_fl.calls, g_fl.task, g_fl.arg, g_fl.status, TS_A_TASK_BUT_FN(task))
-__CPROVER_ensures(g_fn_calls == OLD(g_fn_calls) + 1 && g_fn_task == task && g_fn_arg == arg && g_fn_status == (int)status)
+__CPROVER_assigns(g_fl, TS_A_TASK_BUT_FN(task))
+__CPROVER_ensures(g_fn_calls == OLD(g_fn_calls) + 1 && g_fn_task == task && g_fn_arg == arg && g_fn_status == (int)status && g_st_bad == OLD(g_st_bad))
 ;
 aws_task_fn *g_ts_keep_fn = ts_task_fn_contract; /* address taken: required by obeys_contract */
 
@@ -488,13 +493,6 @@ __CPROVER_ensures(!g_cu_valid ==> g_ht_calls == 0 && g_ra_calls == OLD(g_ra_call
  * run-now tasks were moved first, the task's time is <= the run time (never early), and not smaller than the time of the
  * task moved before it (time order).  The batch is consumed with pop_front only.  Task functions: invocation log, no
  * re-entrancy in this unit (re-entrancy: cancel unit + native units). */
-struct ts_abs {
-    size_t asap_len, tl_len, run_len, tl_front_i, run_front_i;
-    uint64_t last_moved_ts; /* time of the task that entered the batch last */
-    bool swapped;           /* the run-now FIFO was handed to the batch */
-    bool moved_any;
-    size_t moved_timed;     /* number of timed tasks moved to the batch */
-} g_ab;                     /* one object: one assigns target */
 #define g_asap_len g_ab.asap_len
 #define g_tl_len g_ab.tl_len
 #define g_run_len g_ab.run_len
@@ -548,7 +546,7 @@ __CPROVER_requires(g_now == current_time && g_expect_status == (int)status && !g
 __CPROVER_requires(g_asap_len > 0 ==> g_run_front_i < TSK && TS_HANDLE(&g_tk[g_run_front_i]) == SIZE_MAX &&
                                        (g_q_size > 0 ==> g_run_front_i != g_q_top_i) && (g_tl_len > 0 ==> g_run_front_i != g_tl_front_i))
 __CPROVER_requires(g_asap_len < ((size_t)1 << 62) && g_tl_len < ((size_t)1 << 62) && g_q_size < ((size_t)1 << 62) && g_moved_timed == 0)
-__CPROVER_assigns(g_ab, g_q, g_sc.asap_list, g_sc.timed_list.head.next)
+__CPROVER_assigns(g_ab, g_sc.asap_list, g_sc.timed_list.head.next)
 __CPROVER_assigns(TS_A_FN_LOG, TS_A_ARENA_BUT_FN)
 __CPROVER_ensures(g_asap_len == 0 && g_run_len == 0 && g_swapped)
 __CPROVER_ensures(TS_HEADNEXT_OK(&g_sc.timed_list, g_tl_len, g_tl_front_i) && g_sc.asap_list.head.next == &g_sc.asap_list.tail)
